@@ -288,24 +288,37 @@ impl Iterator for Tokenizer<'_> {
                 self.next()
             }
             Ok(Token::StartString) => {
-                let mut result = String::new();
+                // The literal is collected as bytes: `\xx` escapes may produce any byte.
+                let mut result: Vec<u8> = Vec::new();
+                let push_char = |result: &mut Vec<u8>, c: char| {
+                    let mut buf = [0u8; 4];
+                    result.extend_from_slice(c.encode_utf8(&mut buf).as_bytes());
+                };
                 let mut lex = self.lex.to_owned().morph::<Text>();
                 loop {
                     use self::Text::*;
                     match lex.next() {
-                        Some(Ok(Text)) => result += lex.slice(),
-                        Some(Ok(EscapeCharacter)) => match lex.slice().chars().nth(1).unwrap() {
-                            'n' => result.push('\n'),
-                            'r' => result.push('\r'),
-                            't' => result.push('\t'),
-                            '\\' => result.push('\\'),
-                            '"' => result.push('"'),
-                            '\'' => result.push('\''),
+                        Some(Ok(Text)) => result.extend_from_slice(lex.slice().as_bytes()),
+                        // `.` matches a single byte, so for `\` followed by a multi-byte
+                        // character `lex.slice()` is cut in the middle of that character;
+                        // read the character from the source instead.
+                        Some(Ok(EscapeCharacter)) => match lex.source()[lex.span().start + 1..]
+                            .chars()
+                            .next()
+                            .unwrap()
+                        {
+                            'n' => result.push(b'\n'),
+                            'r' => result.push(b'\r'),
+                            't' => result.push(b'\t'),
+                            '\\' => result.push(b'\\'),
+                            '"' => result.push(b'"'),
+                            '\'' => result.push(b'\''),
                             c => {
+                                let start = lex.span().start;
                                 return Some(Err(LexicalError::new(
                                     format!("Unknown escape character {c}"),
-                                    lex.span(),
-                                )))
+                                    start..start + 1 + c.len_utf8(),
+                                )));
                             }
                         },
                         Some(Ok(Codepoint)) => {
